@@ -553,6 +553,241 @@ def campaign_basepath(ck: Check, n: int, label_: str = "", cases: list | None = 
     return bad
 
 
+# ------------------------------------------------------------------ dotted definition keys: ONE document, MODULAR output
+# A key `pkg.Pet` of definitions / $defs is emitted into module `pkg` (`pkg.sub.Pet` into `pkg/sub`), a plain key
+# and the root object into the package `__init__`. Keys whose last component normalises to ONE class name, in the
+# same and in different modules: the names are made unique over the whole document first and handed back per
+# module (`Parser.__replace_duplicate_name_in_module`), so "distinct entries get distinct names WITHIN A MODULE"
+# is decided by that per-module pass and only shows in modular output.
+DOT_PREFIXES = ["", "", "pkg.", "pkg.", "pkg.", "other.", "pkg.sub."]  # modules of DOT_MODULE_ORDER
+DOT_BASES = ["Pet", "pet", "Pet_", "Pets-item", "PetsItem", "Pets_item", "Pet1", "PetModel", "Order", "order"]
+DOT_KINDS = ["pydantic_v2.BaseModel", "pydantic_v2.BaseModel", "pydantic_v2.BaseModel", "pydantic.BaseModel", "dataclasses.dataclass"]
+
+
+DOT_MODULE_ORDER = ["", "pkg", "pkg.sub", "other"]
+
+
+def dot_module(key: str) -> str:
+    return key.rsplit(".", 1)[0] if "." in key else ""
+
+
+def dot_edge_ok(keys: list[str], i: int, j: int) -> bool:
+    """the written package is imported for real, so the module-level reference graph must be acyclic (a cycle of
+    modules is a circular import, which is not what C06 speaks about): a reference that leaves its module goes from an
+    earlier to a later module of DOT_MODULE_ORDER (the package root, which holds the root object, comes first)"""
+    a, b = dot_module(keys[i]), dot_module(keys[j])
+    return a == b or DOT_MODULE_ORDER.index(a) < DOT_MODULE_ORDER.index(b)
+
+
+def dotted_doc(case: dict) -> dict:
+    """case = {dotted: True, container ('definitions' | '$defs'), keys, edges [[i, j, 'ref' | 'array']], root_refs, model}.
+    Definition i carries the marker member `mk{i}x`, the root object `mkrootx`; edge member `r{i}to{j}` / `a{i}to{j}`."""
+    cont, keys = case["container"], case["keys"]
+    if len(set(keys)) != len(keys) or not any("." in k for k in keys):
+        raise ValueError("dotted case: keys must be pairwise different and at least one must name a module")
+    if not all(dot_edge_ok(keys, i, j) for i, j, _ in case["edges"]):
+        raise ValueError("dotted case: module-level reference graph must follow DOT_MODULE_ORDER")
+    defs = {k: {"type": "object", "properties": {f"mk{i}x": {"type": "integer"}}} for i, k in enumerate(keys)}
+    for i, j, kind in case["edges"]:
+        ref = {"$ref": f"#/{cont}/{keys[j]}"}
+        if kind == "array":
+            defs[keys[i]]["properties"][f"a{i}to{j}"] = {"type": "array", "items": ref}
+        else:
+            defs[keys[i]]["properties"][f"r{i}to{j}"] = ref
+    props = {"mkrootx": {"type": "integer"}}
+    for i in case["root_refs"]:
+        props[f"rRto{i}"] = {"$ref": f"#/{cont}/{keys[i]}"}
+    return {"title": "RootDoc", "type": "object", "properties": props, cont: defs}
+
+
+def run_dotted(doc: dict, model: str, timeout: float = 20.0) -> tuple[e2e.Result, Path | None]:
+    """real generate() of one document (text input) into a DIRECTORY; the written package is kept when it succeeded"""
+    import datamodel_code_generator as d
+
+    work = Path(tempfile.mkdtemp(dir=e2e.scratch_root()))
+    out = work / "pkg_out"
+    res = e2e.Result(ok=False)
+    cwd = os.getcwd()
+    t0 = time.time()
+    try:
+        with watchdog(timeout), warnings.catch_warnings(), contextlib.redirect_stderr(io.StringIO()):
+            warnings.simplefilter("ignore")
+            d.generate(json.dumps(doc), input_file_type=d.InputFileType.JsonSchema, output=out,
+                       output_model_type=d.DataModelType(model), formatters=[], disable_timestamp=True)
+        res.ok = True
+    except Hang as ex:
+        res.hang, res.error_type, res.error_msg = True, "Hang", str(ex)
+    except BaseException as ex:  # noqa: BLE001
+        if isinstance(ex, (KeyboardInterrupt, SystemExit)):
+            raise
+        res.error_type, res.error_msg = type(ex).__name__, str(ex)[:300]
+    finally:
+        if os.getcwd() != cwd:
+            os.chdir(cwd)
+    res.wall_s = time.time() - t0
+    if out.is_dir():
+        for q in sorted(out.rglob("*.py")):
+            res.files[str(q.relative_to(out))] = q.read_text(encoding="utf-8")
+    if not res.ok:
+        shutil.rmtree(work, ignore_errors=True)
+        return res, None
+    return res, work
+
+
+def dotted_oracle(ck: Check, camp, case: dict) -> bool:
+    """The property's own oracle on one document with dotted keys, modular output: every module parses and its
+    top-level class names are pairwise different; the package imports; every definition has exactly one class
+    (the one carrying its marker), in the module its key names; every `$ref` member resolves — through the real
+    imports of the written modules — to exactly the class of the referenced definition."""
+    from .c06_dedupe import class_table
+
+    camp.evaluations += 1
+    keys, model = case["keys"], case.get("model", "pydantic_v2.BaseModel")
+    rec = dict(case, dotted=True)
+    res, work = run_dotted(dotted_doc(case), model)
+    mods_of_keys = sorted({k.rsplit(".", 1)[0] if "." in k else "" for k in keys})
+    camp.hit(f"defs:{len(keys)}")
+    camp.hit(f"modules:{len(mods_of_keys)}")
+    camp.hit("kind:" + model)
+    base = {"oracle": "e2e-dotted", "shape": "modular", "kind": model, "container": case["container"]}
+    cleanup = None
+
+    def fail(mech: str, observed: str, **extra) -> bool:
+        camp.hit("fail:" + mech)
+        ck.fail({**base, "mechanism": mech, **extra}, rec, observed)
+        return False
+
+    try:
+        if res.hang:
+            return fail("hang", "generate() did not return")
+        if not res.ok:
+            return fail("generation_error", f"{res.error_type}: {res.error_msg}", error=res.error_type)
+        for name, code in res.files.items():
+            err = e2e.parses(code)
+            if err:
+                return fail("unparsable", f"{name}: {err}")
+            names = [c for c, _ in class_table(code)]
+            if len(set(names)) != len(names):
+                return fail("duplicate_class_name", f"module {name}: top-level classes {names}")
+        try:
+            mods, cleanup = load_package(work, model)
+        except BaseException as ex:  # noqa: BLE001
+            if isinstance(ex, (KeyboardInterrupt, SystemExit)):
+                raise
+            return fail("import_error", f"{type(ex).__name__}: {str(ex)[:300]}", error=type(ex).__name__)
+        objs = {}
+        for mname, mod in mods.items():
+            for attr, obj in vars(mod).items():
+                if isinstance(obj, type) and getattr(obj, "__module__", "") == mod.__name__:
+                    objs[id(obj)] = (mname, attr, obj)
+        hints = {}
+        for cid, (mname, attr, obj) in objs.items():
+            try:
+                hints[cid] = typing.get_type_hints(obj)
+            except Exception as ex:  # noqa: BLE001
+                return fail("import_error", f"{mname}:{attr}: annotations do not resolve: {type(ex).__name__}: {str(ex)[:200]}", error=type(ex).__name__)
+        owner: dict[int, int] = {}
+        for i, k in enumerate(keys):
+            holders = [cid for cid, h in hints.items() if f"mk{i}x" in h]
+            shown = [f"{objs[c][0]}:{objs[c][1]}" for c in holders]
+            if len(holders) != 1:
+                return fail("missing_class" if not holders else "merged_or_duplicated", f"definition {k!r}: classes carrying its marker: {shown}; "
+                            f"classes: {sorted(f'{m}:{a}' for m, a, _ in objs.values())}")
+            want_mod = k.rsplit(".", 1)[0] if "." in k else ""
+            if objs[holders[0]][0] != want_mod:
+                return fail("wrong_module", f"definition {k!r}: its class is {shown[0]}, expected module {want_mod!r}")
+            owner[i] = holders[0]
+        if len(set(owner.values())) != len(keys):
+            return fail("merged_or_duplicated", "two definitions share a class")
+        if len(objs) != len(keys) + 1:
+            return fail("extra_class", f"{len(objs)} classes for {len(keys)} definitions + root: {sorted(f'{m}:{a}' for m, a, _ in objs.values())}")
+        root = [cid for cid, h in hints.items() if "mkrootx" in h]
+        if len(root) != 1:
+            return fail("missing_class", f"root class: {len(root)}")
+        checks = [(owner[i], f"a{i}to{j}" if kind == "array" else f"r{i}to{j}", j) for i, j, kind in case["edges"]]
+        checks += [(root[0], f"rRto{i}", i) for i in case["root_refs"]]
+        for cid, member, j in checks:
+            h = hints[cid].get(member)
+            if h is None:
+                return fail("member_missing", f"{objs[cid][0]}:{objs[cid][1]}.{member} not emitted")
+            got = [t for t in flat_types(h) if isinstance(t, type) and t is not type(None) and id(t) in objs]
+            if [id(t) for t in got] != [owner[j]]:
+                return fail("ref_mislanded", f"{objs[cid][0]}:{objs[cid][1]}.{member} resolves to {[f'{objs[id(t)][0]}:{objs[id(t)][1]}' for t in got]}, "
+                            f"expected the class of definition {keys[j]!r} ({objs[owner[j]][0]}:{objs[owner[j]][1]})")
+    finally:
+        if cleanup:
+            cleanup()
+        elif work is not None:
+            shutil.rmtree(work, ignore_errors=True)
+    camp.distinct.add(json.dumps(rec, sort_keys=True))
+    if len(camp.samples) < 2:
+        camp.samples.append(rec)
+    return True
+
+
+def gen_dotted_case(rng: Rng) -> dict:
+    n = rng.range(2, 5)
+    keys: list[str] = []
+    bases = DOT_BASES if rng.chance(1, 2) else DOT_BASES[:6]
+    while len(keys) < n:
+        k = rng.choice(DOT_PREFIXES) + rng.choice(bases)
+        if k not in keys:
+            keys.append(k)
+    if not any("." in k for k in keys):
+        keys[rng.below(n)] = "pkg." + keys[0]
+        if len(set(keys)) != n:
+            keys = list(dict.fromkeys(keys)) + ["pkg.Extra"]
+            keys = keys[:max(2, len(keys))]
+    n = len(keys)
+    # a definition that is referenced before it is parsed gets a reserved name, one that is not gets a name of its own
+    # with a desired (duplicate) name: both histories matter, so the density of references varies from none to many
+    den = rng.choice([0, 0, 1, 2, 4])
+    edges = [[i, j, rng.choice(["ref", "ref", "array"])] for i in range(n) for j in range(n) if rng.below(12) < den and dot_edge_ok(keys, i, j)]
+    rden = rng.choice([0, 0, 1, 2])
+    return {"dotted": True, "container": rng.choice(["definitions", "$defs"]), "keys": keys, "edges": edges,
+            "root_refs": [i for i in range(n) if rng.below(4) < rden], "model": rng.choice(DOT_KINDS)}
+
+
+DOTTED_CORPUS = [
+    # a plain key and two keys of one module that normalise to the class name of the plain one
+    {"dotted": True, "container": "definitions", "keys": ["Order", "pkg.order", "pkg.Order_"], "edges": [], "root_refs": []},
+    {"dotted": True, "container": "$defs", "keys": ["pkg.pet", "Pet", "pkg.Pet", "other.Pet_"], "edges": [[1, 0, "ref"], [0, 2, "ref"], [2, 0, "array"], [2, 3, "ref"]], "root_refs": [0, 3]},
+    {"dotted": True, "container": "definitions", "keys": ["pkg.sub.Pet", "pkg.Pet", "pkg.sub.pet"], "edges": [[1, 0, "ref"], [0, 2, "ref"], [2, 0, "ref"]], "root_refs": [1]},
+]
+
+
+def dotted_scope() -> list[dict]:
+    """small scope: 3 spellings of one class name distributed over the package root and one module in every way
+    that puts at least two of them into the module, in every document order, with a ring of references (names
+    reserved by reference before the definition is parsed) and without any reference"""
+    import itertools
+
+    out = []
+    for bases in (["Pet", "pet", "Pet_"], ["PetsItem", "Pets-item", "Pets_item"]):
+        for prefixes in (["", "pkg.", "pkg."], ["pkg.", "pkg.", "pkg."], ["other.", "pkg.", "pkg."]):
+            for perm in itertools.permutations(range(3)):
+                keys = [prefixes[i] + bases[i] for i in perm]
+                edges = [[i, j, "ref"] for i, j in ((0, 1), (1, 2), (2, 0), (1, 0)) if dot_edge_ok(keys, i, j)]
+                out.append({"dotted": True, "container": "definitions", "keys": keys, "edges": edges, "root_refs": [0]})
+                out.append({"dotted": True, "container": "$defs", "keys": keys, "edges": [], "root_refs": []})
+    return out
+
+
+def campaign_dotted(ck: Check, n: int, label_: str = "", scope: bool = False) -> None:
+    camp = ck.campaign("e2e dotted definition keys (one document, modular output): class names distinct within every module, one class per definition in its module, "
+                       "every $ref member resolves through the real imports to the class of its target" + label_)
+    t0 = time.time()
+    rng = ck.rng.fork("dotted" + label_)
+    for case in DOTTED_CORPUS + (dotted_scope() if scope else dotted_scope()[::4]) + [gen_dotted_case(rng) for _ in range(n)]:
+        dotted_oracle(ck, camp, case)
+        if len(ck.failures) > 20:
+            break
+    camp.wall_s = time.time() - t0
+
+
 def search(ck: Check) -> None:
     """failing-input search for a broken base-path correspondence / theorem: the load-then-use small scope and a wider tree campaign"""
+    campaign_dotted(ck, 300, " [search]", scope=True)
+    if ck.failures:
+        return
     campaign_dirs(ck, 400, " [search]")
